@@ -1242,6 +1242,15 @@ func (c *Compiler) writeCopy(node *node, l, r string, depth int) error {
 	case typeBasic:
 		if node.typu == "string" {
 			c.wl("buf,", c.fmtVnb(node, l, depth), "=inspector.BufferizeString(buf,", c.fmtVnb(node, r, depth), ")")
+		} else if node.ptr {
+			// Copy the value the pointer leads to, not the pointer: source and copy must not share it.
+			nv := "p" + strconv.Itoa(depth)
+			c.wl("if ", r, "==nil{")
+			c.wl(l, "=nil")
+			c.wl("}else{")
+			c.wl(nv, ":=*", r)
+			c.wl(l, "=&", nv)
+			c.wl("}")
 		} else {
 			c.wl(l, "=", r)
 		}
